@@ -5,6 +5,8 @@ package type1
 import (
 	"math"
 
+	"seehuhn.de/go/postscript/psenc"
+
 	"seehuhn.de/go/postscript/funit"
 )
 
@@ -394,6 +396,17 @@ func fontWF(f *Font) bool {
 //@ loop 2 invariant f != nil && charStrings != nil && len(iv) == 4 && ref(iv) != 0
 //@ loop 3 invariant f != nil && charStrings != nil && len(iv) == 4 && ref(iv) != 0 && len(obf) >= 4
 //@ loop 4 invariant f != nil && charStrings != nil && len(iv) == 4 && ref(iv) != 0 && 0 <= pos
+
+// C08: the StandardEncoding shortcut is only taken when a reader that starts
+// from StandardEncoding and maps codes of absent glyphs to .notdef recovers
+// exactly this encoding (Type 1 book 2.2; the glyphs are the CharStrings keys).
+var _ = psenc.StandardEncoding
+
+//@ func isStandardEncoding
+//@ safety C10
+//@ ensures [C08.enc.shortcut] result ==> len(encoding) == 256 && (forall i :: 0 <= i && i < 256 ==> encoding[i] == psenc.StandardEncoding[i] || (encoding[i] == ".notdef" && !has(charStrings, psenc.StandardEncoding[i])))
+//@ ensures [C08.enc.exact] len(encoding) == 256 && (forall i :: 0 <= i && i < 256 ==> encoding[i] == psenc.StandardEncoding[i]) ==> result
+//@ loop 1 invariant [C08.enc.shortcut] len(encoding) == 256 && (forall k :: 0 <= k && k < rangeidx ==> encoding[k] == psenc.StandardEncoding[k] || (encoding[k] == ".notdef" && !has(charStrings, psenc.StandardEncoding[k])))
 
 //@ func (*Font).makeTemplateData
 //@ requires opt != nil
